@@ -36,7 +36,7 @@ ASSUMPTIONS = [
 ]
 FLOORS = {"programs:op-on-id-held-by-other": 0.05, "programs:drop-then-lookup": 0.1, "programs:failing-replace-registered": 0.08}
 
-LEAF_CLASSES = ["LeafA", "LeafB", "SubLeafA", "Falsy", "SlotLeaf", "Checked"]
+LEAF_CLASSES = ["LeafA", "LeafB", "SubLeafA", "Falsy", "SlotLeaf", "Checked", "SameNameA", "SameNameB"]
 ORIGINS = [["no"], ["no"], ["code", 0, 0, 1], ["gen", 1], ["multi", [["code", 0, 0, 1], ["gen", 1]]]]
 
 
@@ -210,9 +210,11 @@ class Machine:
                 return
             self._touch(x)
             before = self.lookup_table()
-            how = o[2] % 4
+            how = o[2] % 6
             if how == 3 and type(x).__name__ != "Checked":
                 how = 0
+            if how == 5 and not any(f.name == "items" for f in dc.fields(x)):
+                how = 4
             if self.registered(x):
                 self.lab.tag("failing-replace-registered")
             try:
@@ -222,6 +224,11 @@ class Machine:
                 elif how == 1:
                     x.replace(id="forced")
                     exp = ValueError
+                elif how == 4:
+                    # valid names, unchecked junk values: building the new node fails somewhere inside
+                    x.replace(origin=None)
+                elif how == 5:
+                    x.replace(items=("not a node",))
                 elif how == 3:
                     # the class's own validation fails after the base class has finished its part;
                     # only a compare=False field changes, so the rejected node has the receiver's id
@@ -236,6 +243,10 @@ class Machine:
                     exp = (InvalidTypes, TypeError)
                 require(False, "replace-should-fail", f"step {self.step_no} how={how}")
             except (TypeError, ValueError, InvalidTypes) as e:
+                e.__traceback__ = None
+                del e
+            except Exception as e:  # noqa: BLE001 - junk values may fail in any way (how 4, 5)
+                require(how in (4, 5), "failing-replace-unexpected-error", f"step {self.step_no} how={how}: {type(e).__name__}")
                 e.__traceback__ = None
                 del e
             gc.collect()
@@ -267,6 +278,10 @@ class Machine:
             x = self.sel(o[1])
             if x is None:
                 return
+            seen_rt: dict = {}
+            _walk(x, seen_rt)
+            if any(type(d).__name__ == "SameName" for d in seen_rt.values()):
+                return  # a type tag names a class by its simple name: two classes of one name cannot both be read back
             fmt = o[2] % 3
             if fmt == 0:
                 res = type(x).as_obj(x.as_dict())
@@ -471,6 +486,6 @@ def check_deep(data: dict, lab: Labels) -> None:
     lab.nontrivial = True
 
 
-PARTS = [Part("programs", check_program, strategy=st_program, quick=800, thorough=64000),
+PARTS = [Part("programs", check_program, strategy=st_program, quick=6400, thorough=320000),
          Part("deep", check_deep, enumerate=enum_deep,
               exhaustive_note="4 chain shapes x depth 2x (thorough: and 4x) the recursion limit x {detach, detach_self, drop}")]
